@@ -546,18 +546,8 @@ class DataPack:
             postcommands = []
 
         body = self.parse_function_token(token, tokenizer, prefix)
-        if postcommands_after_return and any(
-            word in {"return", "$return"}
-            for command in body
-            for word in re.split("[ \n]", command)
-        ):
-            # `return` leaves the function it is written in: the user's commands
-            # get a function of their own, so that the postcommands still run
-            body = [
-                self.add_private_function(
-                    name, NEW_LINE.join(body), force_create_func=True
-                )
-            ]
+        if postcommands_after_return:
+            body = self.isolate_return(name, body)
 
         commands = [
             *precommands,
@@ -568,6 +558,32 @@ class DataPack:
             count = self.get_count(name)
         self.private_functions[name][count] = Function(commands)
         return self.call_func(name, count)
+
+    def isolate_return(
+        self, name: str, commands: list[str], arguments: str = ""
+    ) -> list[str]:
+        """
+        Make sure that commands added after user's commands run even if user's commands `return`
+
+        :param name: Private function's group name
+        :param commands: User's commands
+        :param arguments: Macro arguments user's commands are called with (" with ..."), if any
+        :return: User's commands, or the call of the function they were moved to
+        """
+        if not any(
+            word in {"return", "$return"}
+            for command in commands
+            for word in re.split("[ \n]", command)
+        ):
+            return commands
+        # `return` leaves the function it is written in: the user's commands
+        # get a function of their own, so that what follows them still runs
+        return [
+            self.add_private_function(
+                name, NEW_LINE.join(commands), force_create_func=True
+            )
+            + arguments
+        ]
 
     def add_function(self, name: str, commands: list[str]) -> None:
         """
